@@ -56,6 +56,68 @@ theorem code_validity_examples :
     Spec.codeValid .litlen #[2, 2, 2, 2] = true ∧ Spec.codeValid .dist #[16] = false := by
   decide +kernel
 
+/-! ### The decoder's validity checks, regenerated from the source
+
+`init_tree` and `decompress_fast` are not translated as a whole (loops over lookup tables); the
+CONDITIONS of their validity checks are: the translator finds the one `if` that leads to each failure
+state and emits its condition as a predicate over the locals it reads. The theorems below pin each of
+them to the rule the reference decoder (and the decoder model) applies, for every value of the locals,
+so an edit to one of these checks breaks a proof whatever inputs the generators happen to produce. -/
+
+/-- the last stage of `Spec.codeValid`: complete, or a non-code-length alphabet with no code longer than one bit -/
+def specAccepts (complete isClen : Bool) (maxLen : Nat) : Bool := complete || (!isClen && decide (maxLen ≤ 1))
+
+/-- `Spec.codeValid` factors through that rule. -/
+theorem codeValid_factors (k : Spec.CodeKind) (lens : Array Nat) :
+    Spec.codeValid k lens =
+      (lens.all (· ≤ 15) && match Spec.kraftLeft (Spec.countLens lens) with
+        | none => false
+        | some l => specAccepts (l == 0) (k == .clen) (Spec.maxLen lens)) := by
+  unfold Spec.codeValid specAccepts
+  cases Spec.kraftLeft (Spec.countLens lens) with
+  | none => rfl
+  | some l =>
+    cases l with
+    | zero => simp
+    | succ l => cases k <;> rfl
+
+/-- THE SOURCE'S INCOMPLETE-CODE CHECK IS THE SPECIFICATION'S RULE, for every value of the three
+    locals it reads (`total` = 65536 exactly for a complete code; `bt` = table index, 2 = code-length
+    alphabet; `max_code_len`). -/
+theorem source_incomplete_check_is_spec_rule (total bt maxLen : Nat) :
+    tree_incomplete_rejects total bt maxLen = !specAccepts (total == 65536) (bt == 2) maxLen := by
+  unfold tree_incomplete_rejects specAccepts HUFFLEN_TABLE
+  by_cases ht : total = 65536
+  · subst ht; simp
+  · have h1 : ((total : Int) != 65536) = true := by
+      simp only [bne_iff_ne, ne_eq]; intro h; exact ht (by omega)
+    have h2 : (total == 65536) = false := by simpa using ht
+    rw [h1, h2]
+    by_cases hb : bt = 2
+    · subst hb; simp
+    · have h3 : ((bt : Int) == 2) = false := by
+        simp only [beq_eq_false_iff_ne, ne_eq]; intro h; exact hb (by omega)
+      have h4 : (bt == 2) = false := by simpa using hb
+      rw [h3, h4]
+      by_cases hm : maxLen ≤ 1
+      · have : ¬ ((maxLen : Int) > 1) := by omega
+        simp [hm, this]
+      · have : ((maxLen : Int) > 1) := by omega
+        simp [hm, this]
+
+/-- The over-subscription check: the running Kraft remainder went negative. -/
+theorem source_oversubscription_check (left : Int) : tree_oversubscribed left = decide (left < 0) := rfl
+
+/-- The fast path's symbol checks are the specification's: literal/length symbols above 285 and
+    distance symbols above 29 are rejected. -/
+theorem source_symbol_checks (c s : Nat) :
+    fast_litlen_invalid c = decide (c > 285) ∧ fast_dist_invalid s = decide (s > 29) := by
+  unfold fast_litlen_invalid fast_dist_invalid
+  constructor <;> simp <;> omega
+
+example : tree_incomplete_rejects 32768 2 1 = true ∧ tree_incomplete_rejects 32768 0 1 = false ∧
+    tree_incomplete_rejects 65536 2 7 = false ∧ tree_incomplete_rejects 49152 1 2 = true := by decide
+
 /-! ### Over the decoder model (`Model.Core`, ICALL correspondence)
 
 Two groups of theorems. (1) `proper_prefix_is_never_rejected`: the "conversely" clause of the property,
